@@ -300,16 +300,37 @@ func ruleNoPackageState(w *World, r *Report, rule string) {
 	}
 }
 
-// returnsFreshLiteral: every return of the function is a composite literal (or its address).
+// returnsFreshLiteral: every return of the function is a composite literal (or
+// its address), or a local that was defined as one, or the result of a function
+// of which the same holds (newConfig(opts) { cfg := defaultConfig(); …; return cfg }).
 func returnsFreshLiteral(fi *FuncInfo) bool {
+	return returnsFreshLiteralDepth(fi, 2)
+}
+
+func returnsFreshLiteralDepth(fi *FuncInfo, depth int) bool {
+	info := fi.Pkg.TypesInfo
 	ok, any := true, false
+	freshExpr := func(e ast.Expr) bool {
+		e = resolveLocal(info, fi.Decl.Body, e, 2)
+		if litOf(e) != nil {
+			return true
+		}
+		if c, isC := e.(*ast.CallExpr); isC && depth > 0 && theWorld != nil {
+			if cal := callee(info, c); cal != nil {
+				if t := theWorld.Decls[cal]; t != nil && t.Pkg == fi.Pkg {
+					return returnsFreshLiteralDepth(t, depth-1)
+				}
+			}
+		}
+		return false
+	}
 	ast.Inspect(fi.Decl.Body, func(x ast.Node) bool {
 		if _, isLit := x.(*ast.FuncLit); isLit {
 			return false
 		}
 		if ret, isRet := x.(*ast.ReturnStmt); isRet {
 			any = true
-			if len(ret.Results) != 1 || litOf(ret.Results[0]) == nil {
+			if len(ret.Results) != 1 || !freshExpr(ret.Results[0]) {
 				ok = false
 			}
 		}
